@@ -124,14 +124,31 @@ def run(ctx: Ctx) -> None:
         ctx.check(len(nls) == 5 and "\n" not in lit and lit.count("END") == 2, "Y4", "pprint joins lines with newlinechar", repo.loc("pprint", repo.func("pprint.PrettyPrinter.pprint")), f"{len(nls)} separators for 6 lines", f"two root blocks of 3 lines each are joined as {t.describe()!r}")
 
     # root key/value block (level 0)
-    ctx.rule("Y6", "a METADATA / VALIDATION / CONNECTIONOPTIONS block printed at the root starts at indentation 0", 1)
-    outs = L.pprint_text(lambda: cd([("__type__", "metadata"), ("akey", W("v"))]), lambda: L.sym_options(end_comment=False), fork=False)
-    for ass, kind, text in outs:
-        if kind != "return":
-            raise AnalysisError(f"pprint of a root METADATA block raises {text}")
-        t = pai.as_sstr(text)
-        first = t.pieces[0]
-        ctx.check(isinstance(first, str) and first.startswith("METADATA"), "Y6", "root METADATA block", repo.loc("pprint", repo.func("pprint.PrettyPrinter.pprint")), "opener at column 0", f"a depth-0 METADATA block is written as {t.describe()[:80]!r}: its opener is indented by one level (process_key_dict(level=0) uses whitespace(level, 1))")
+    ctx.rule("Y6", "a METADATA / VALIDATION / CONNECTIONOPTIONS block printed at the root has its opener and END at indentation 0 and its pairs one level in", 3)
+    for kv in ("metadata", "validation", "connectionoptions"):
+        outs = L.pprint_text(lambda kv=kv: cd([("__type__", kv), ("akey", W("v"))]), lambda: L.sym_options(end_comment=False, newlinechar="\n"), fork=False)
+        for ass, kind, text in outs:
+            if kind != "return":
+                raise AnalysisError(f"pprint of a root {kv.upper()} block raises {text}")
+            t = pai.as_sstr(text)
+            # split the text at the line separators: literal pieces carry them
+            lines: list = [[]]
+            for p_ in t.pieces:
+                if isinstance(p_, str):
+                    parts = p_.split("\n")
+                    for i_, part in enumerate(parts):
+                        if i_:
+                            lines.append([])
+                        if part:
+                            lines[-1].append(part)
+                else:
+                    lines[-1].append(p_)
+            shape = []
+            for ln in lines:
+                a, b, content = split_line(SStr(ln))
+                shape.append((head_of(content) if a is not None else "?", b if a == 0 else f"a={a},{b}"))
+            want = [(kv.upper(), 0), ("<value>", 1), ("END", 0)]
+            ctx.check(shape == want, "Y6", f"root {kv.upper()} block", repo.loc("pprint", repo.func("pprint.PrettyPrinter.pprint")), "opener 0 / pair 1 / END 0", f"a depth-0 {kv.upper()} block is laid out as {shape} (keyword, indentation level), expected {want}; text {t.describe()[:90]!r}")
 
     # ---- Y5 alignment ---------------------------------------------------------------------------------
     ctx.rule("Y5", "alignment column = first multiple of max(1, indent) strictly greater than the longest counted key; all padded lines of an object use it; counted keys = padded keys", 15)
